@@ -242,6 +242,13 @@ func (x *Exec) oblige(st *State, fr *Frame, in ssa.Instruction, kind, goal, desc
 			return
 		}
 	}
+	if x.contract != nil && x.contract.NoSafety && safetyKinds[kind] {
+		// abstraction mode: this unit's safety obligations are not decided; the
+		// run continues under the assumption that the operation does not fault
+		x.note("safety obligations of " + x.rootKey + " are NOT decided (directive nosafety): only its frame, protocol and postconditions are")
+		x.assume(st, goal)
+		return
+	}
 	x.emit(st, name, kind, site, pos, goal, descr)
 	x.assume(st, goal)
 }
@@ -294,6 +301,8 @@ func (x *Exec) cover(st *State, name string) {
 }
 
 type modReg struct{ reg, key string }
+
+var safetyKinds = map[string]bool{"idx": true, "nil": true, "slice": true, "make": true, "shift": true, "assert": true, "cast": true, "div": true, "div0": true, "conv": true, "alloc": true, "fdiv": true, "ovf": true, "pre": true, "pre-recv": true}
 
 // ---------- values ----------
 
